@@ -51,7 +51,7 @@ var binNames = map[ops.Op]string{
 	ops.OpMod: "mod", ops.OpPow: "pow",
 }
 
-var unNames = map[ops.Op]string{ops.OpNeg: "neg", ops.OpNot: "not", ops.OpLen: "len", ops.OpBitNot: "bnot"}
+var unNames = map[ops.Op]string{ops.OpNeg: "neg", ops.OpNot: "not", ops.OpLen: "len", ops.OpBitNot: "bnot", ops.OpId: "id"}
 
 func hexs(b []byte) string {
 	if len(b) == 0 {
@@ -185,6 +185,11 @@ func (d *dumper) exp(e ast.ExpNode) {
 		}
 		d.w(")")
 	case *ast.UnOp:
+		if _, isEtc := x.Operand.(ast.Etc); isEtc && x.Op == ops.OpId {
+			// (...) : parentheses kept around the multi-valued '...'
+			d.w("(paren etc)")
+			return
+		}
 		d.w("(un %s ", unNames[x.Op])
 		d.exp(x.Operand)
 		d.w(")")
